@@ -71,6 +71,41 @@ func TestC20Appended(t *testing.T) {
 				rec.Fail(rt, name, "appended-encode-panics:"+encName, err, c)
 				return
 			}
+			// a payload of b on its own (no header, so no version of its own), written after a and a Clear() made through a copy
+			// of the encoder handle (Encoder is a small struct handed around by value): Clear forgets the version too
+			var pl any
+			plTag := kmip.TagRequestPayload
+			if _, isResp := b.(*kmip.ResponseMessage); isResp {
+				plTag = kmip.TagResponsePayload
+			}
+			switch m := b.(type) {
+			case *kmip.RequestMessage:
+				if len(m.BatchItem) > 0 && m.BatchItem[0].RequestPayload != nil {
+					pl = m.BatchItem[0].RequestPayload
+				}
+			case *kmip.ResponseMessage:
+				if len(m.BatchItem) > 0 && m.BatchItem[0].ResponsePayload != nil {
+					pl = m.BatchItem[0].ResponsePayload
+				}
+			}
+			if pl != nil {
+				var fresh, cleared []byte
+				if err := safely(func() error {
+					f := mk()
+					f.TagAny(plTag, pl)
+					fresh = append([]byte{}, f.Bytes()...)
+					enc := mk()
+					enc.Any(a)
+					cp := enc
+					cp.Clear()
+					enc.TagAny(plTag, pl)
+					cleared = append([]byte{}, enc.Bytes()...)
+					return nil
+				}); err == nil && !bytes.Equal(fresh, cleared) {
+					rec.Fail(rt, name, "cleared-encoder-remembers:"+encName, fmt.Errorf("a payload (%T) written on a %s encoder that wrote a message of version %s and was cleared is %d bytes, on a fresh encoder %d bytes", pl, encName, va, len(cleared), len(fresh)), c)
+					return
+				}
+			}
 			// (the text encodings may put a separator between two documents: white space is not content)
 			if !bytes.Equal(bytes.TrimSpace(suffix), bytes.TrimSpace(alone[i])) {
 				rec.Fail(rt, name, "encoding-depends-on-what-the-encoder-wrote-before:"+encName, fmt.Errorf("b (version %s) written after a (version %s) on the same %s encoder is %d bytes, alone %d bytes", vb, va, encName, len(suffix), len(alone[i])), c)
